@@ -20,7 +20,7 @@ LEVEL = "exploration"
 SHARDS = {"quick": 16, "thorough": 16}
 FLOOR = {"quick": 150, "thorough": 3000}
 REQUIRED_COUNTERS = ["generations_accepted", "files_compiled", "modules_imported", "all_names_resolved", "probe_runs",
-                     "schema_shape_documents"]
+                     "schema_shape_documents", "shared_core_pairs"]
 RULE = ("documents drawn from the seeded OpenAPI grammar (schema graphs with refs, allOf, oneOf/anyOf, arrays, maps, enums, nullable, "
         "formats, 5 property-name styles; operations with path/query/header params, path-level params, json/form/multipart/octet "
         "bodies, several 2xx/4xx/5xx/default responses) x 9 layouts x 3 naming strategies; a case = (document, layout, strategy); "
@@ -151,6 +151,44 @@ def run_batch(ctx: Ctx, batch: list[dict]) -> None:
             rec.violation("all:unresolved_name", it["feats"], it["case"], json.dumps(u))
 
 
+PAIR_LAYOUTS = [("shop{n}", "billing{n}", "shop{n}_core"), ("acme{n}.shop", "acme{n}.billing", "acme{n}.shop_core"),
+                ("orders{n}", "billing{n}", "common{n}.core"), ("a{n}.client", "b{n}.client", "a{n}.client_core")]
+
+
+def shared_core_pair(ctx: Ctx, n: int, docs: list[dict] | None = None, layout: int | None = None) -> None:
+    """Two clients generated one after the other into ONE project with ONE shared core (incl. a core whose directory
+    name extends a client's): afterwards every module of BOTH packages must still import."""
+    rec, rng = ctx.rec, ctx.rng
+    li = layout if layout is not None else rng.randrange(len(PAIR_LAYOUTS))
+    a, b, core = (x.format(n=n) for x in PAIR_LAYOUTS[li])
+    if docs is None:
+        docs = [specgen.generate(rng, prof={"ops": (1, 3), "schemas": (2, 4), "p_errors": 1.0}).doc for _ in range(2)]
+    root = ctx.scratch.new("pair")
+    case = {"pair": True, "docs": docs, "pair_layout": li}
+    rec.count("shared_core_pairs")
+    for pkg, doc in zip((a, b), docs):
+        res = genrun.generate(doc, root, pkg, core, force=True, spec_path=genrun.write_spec(doc, root / f"spec-{pkg.replace('.', '_')}"))
+        if not res.ok:
+            rec.count("generations_rejected")
+            rec.case(case, nontrivial=False)
+            return
+    rec.case(case, nontrivial=True)
+    out = genrun.run_probe({"root": str(root), "packages": [{"pkg": a, "core": core}, {"pkg": b, "core": core}], "actions": ["import_all"]},
+                           root / "probe")
+    rec.count("probe_runs")
+    if "probe_error" in out:
+        rec.violation("pair:probe:crash", [], case, out["probe_error"][-600:])
+        return
+    ia = out["import_all"]
+    rec.count("modules_imported", ia["modules"])
+    seen = set()
+    for f in ia["failures"]:
+        sig = "pair:" + norm_sig(f)
+        if sig not in seen:
+            seen.add(sig)
+            rec.violation(sig, [], case, json.dumps(f)[:700])
+
+
 def make_items(ctx: Ctx, count: int, start: int):
     rng = ctx.rng
     items = []
@@ -210,6 +248,8 @@ def run_shard(ctx: Ctx) -> None:
     bs = 10
     for b in range(0, total, bs):
         run_batch(ctx, make_items(ctx, bs, ctx.shard * 100000 + b))
+    for k in range(3 if ctx.quick else 60):
+        shared_core_pair(ctx, ctx.shard * 1000 + k)
     # schema-centred inputs: the compositional grammar and the exhaustive shape catalogue, as models, as response bodies
     # and as request bodies (everything emitted for them must compile and import as well)
     extra = []
@@ -246,6 +286,9 @@ def finalize(m: dict, tier: str, seed: int) -> None:
 def replay(ctx: Ctx, file: dict) -> None:
     common.use_repo()
     c = file["case"]
+    if c.get("pair"):
+        shared_core_pair(ctx, 1, c["docs"], c["pair_layout"])
+        return
     li = [i for i, l in enumerate(LAYOUTS) if [l[0], l[1]] == c["layout"]]
     d = specgen.Doc(c["doc"], {}, [], set(file.get("features", [])))
     run_batch(ctx, [{"doc": d, "layout": li[0] if li else 0, "strategy": c["strategy"], "n": 1,
